@@ -449,6 +449,12 @@ Proof.
   - rewrite Ha, Hb. cbn [fst]. now apply upd_bar_rel.
 Qed.
 
+(** (for add/insert* of a bar that is a member already: no effect, fix bee77c9) *)
+Definition is_multi (t : target) : bool := match t with TMulti _ => true | _ => false end.
+Lemma match_multi {X} (t : target) (A B : X) :
+  match t with TMulti _ => A | _ => B end = if is_multi t then A else B.
+Proof. destruct t; reflexivity. Qed.
+
 (** one call: related states stay related, whatever the two fault oracles are *)
 Theorem step_structure W H f1 f2 s1 s2 now o :
   Rs s1 s2 ->
@@ -468,6 +474,11 @@ Proof.
     now apply bar_finish_rel.
   - now apply bar_drop_rel.
   - (* OInsert *)
+    rewrite !match_multi.
+    assert (Hmem : is_multi (b_target (get_bar s2 b)) = is_multi (b_target (get_bar s1 b))).
+    { pose proof (get_bar_rel s1 s2 b HR) as Hb. apply Rb_iff in Hb. destruct Hb as [_ Ht].
+      destruct (Rt_cases _ _ Ht) as [[Heq _]|(ta & tb & Ha & Hb & _)]; [now rewrite Heq | now rewrite Ha, Hb]. }
+    rewrite Hmem. destruct (is_multi (b_target (get_bar s1 b))); [exact HR|].
     pose proof HR as HR0. apply Rs_iff in HR0. destruct HR0 as [Hbars Hm].
     assert (Hloc :
       match loc with
